@@ -86,6 +86,12 @@ var catalogue = []def{
 	// without one (first call on a cold reference vs later calls)
 	{"+proj=krovak +towgs84=570.8,85.7,462.8,4.998,1.587,5.261,3.56 +units=m +no_defs", "", false},
 	{"+proj=krovak +lat_0=49.5 +lon_0=24.83333333333333 +k=0.9999 +towgs84=589,76,480 +units=m +no_defs", "", false},
+	// parameters the parser accepts that nothing above uses: +R_A (sphere of
+	// equal area), +rf, +to_meter, +from_greenwich
+	{"+proj=merc +ellps=WGS84 +R_A +units=m +no_defs", "", false},
+	{"+proj=longlat +ellps=clrk66 +R_A +towgs84=-8,160,176 +no_defs", "", true},
+	{"+proj=utm +zone=12 +a=6378137 +rf=298.257223563 +to_meter=0.3048 +no_defs", "", false},
+	{"+proj=longlat +ellps=intl +from_greenwich=2.337229166667 +towgs84=-87,-98,-121 +no_defs", "", true},
 	// different systems that carry the same label (title / WKT name)
 	{"+title=custom +proj=utm +zone=10 +datum=WGS84 +units=m +no_defs", "", false},
 	{"+title=custom +proj=utm +zone=33 +datum=WGS84 +units=m +no_defs", "", false},
@@ -532,6 +538,19 @@ func (r *run) point(d def) (float64, float64) {
 			return t.Unit("lon")*360 - 180, 90 + t.Unit("lat-bad")*20
 		case 2:
 			return 180, -90
+		case 3:
+			// exact poles and the antimeridian, and (one in three) a
+			// non-finite coordinate: whatever the answer is, it must not
+			// change what later calls return
+			sp := []float64{90, -90, 180, -180, math.NaN(), math.Inf(1), math.Inf(-1)}
+			lon, lat := math.Round((t.Unit("lon")*360-180)*1e4)/1e4, math.Round((t.Unit("lat")*170-85)*1e4)/1e4
+			if t.Bool("special-lat") {
+				lat = sp[t.Choose(len(sp), "special-ll")]
+			} else {
+				lon = sp[t.Choose(len(sp), "special-ll")]
+			}
+			r.res.Probe("pole/antimeridian/non-finite-input")
+			return lon, lat
 		default:
 			return math.Round((t.Unit("lon")*360-180)*1e4) / 1e4, math.Round((t.Unit("lat")*170-85)*1e4) / 1e4
 		}
@@ -541,6 +560,16 @@ func (r *run) point(d def) (float64, float64) {
 		return 500000, 4000000
 	case 1:
 		return 1e9 * (t.Unit("x-far") - 0.5), 1e9 * (t.Unit("y-far") - 0.5)
+	case 2:
+		sp := []float64{0, math.NaN(), math.Inf(1), math.Inf(-1), 1e300}
+		x, y := math.Round((t.Unit("x")-0.5)*4e6), math.Round((t.Unit("y")-0.5)*4e6)
+		if t.Bool("special-y") {
+			y = sp[t.Choose(len(sp), "special-xy")]
+		} else {
+			x = sp[t.Choose(len(sp), "special-xy")]
+		}
+		r.res.Probe("pole/antimeridian/non-finite-input")
+		return x, y
 	default:
 		return math.Round((t.Unit("x") - 0.5) * 4e6), math.Round((t.Unit("y") - 0.5) * 4e6)
 	}
